@@ -39,7 +39,7 @@ private:
 
     int push(Var &var)
     {
-      if (ptr >= 3) { return -1; }
+      if (ptr >= STACK_LEN) { return -1; }
       stack[ptr++] = var;
 
       return 0;
@@ -47,7 +47,7 @@ private:
 
     int push_front(Var &var)
     {
-      if (ptr >= 3) { return -1; }
+      if (ptr >= STACK_LEN) { return -1; }
 
       for (int n = ptr; n > 0; n--)
       {
@@ -133,7 +133,11 @@ private:
       }
     }
 
-    Var stack[3];
+    // One value per pending operator plus one: there are 6 binary
+    // precedence levels so at most 6 operators can be pending.
+    static const int STACK_LEN = 8;
+
+    Var stack[STACK_LEN];
     int ptr;
   };
 
@@ -146,7 +150,7 @@ private:
 
     void push(Operator &oper)
     {
-      assert(ptr < 2);
+      assert(ptr < STACK_LEN);
       stack[ptr++] = oper;
     }
 
@@ -166,14 +170,10 @@ private:
       return value;
     }
 
-    int get_precedence_index()
+    int get_last_precedence()
     {
       assert(ptr > 0);
-
-      if (ptr == 1) { return 0; }
-
-      if (stack[0].precedence > stack[1].precedence) { return 1; }
-      return 0;
+      return stack[ptr - 1].precedence;
     }
 
     int size()      { return ptr; }
@@ -189,18 +189,20 @@ private:
     }
 
   private:
-    Operator stack[2];
+    static const int STACK_LEN = 7;
+
+    Operator stack[STACK_LEN];
     int ptr;
   };
 
   static bool need_symbol(int count)
   {
-    return count == 1 || count == 3;
+    return (count & 1) == 1;
   }
 
   static bool need_number(int count)
   {
-    return count == 0 || count == 2 || count == 4;
+    return (count & 1) == 0;
   }
 
   static int execute_stack(VarStack &var_stack, OperStack &oper_stack);
